@@ -470,7 +470,7 @@ func tall(h int, hf xmss.HashFunction, seed [48]uint8, r *rand.Rand, tr *trace.B
 	sigs := 0
 	stops := []int{0, 253, 1<<16 - 3, 1<<16 + 250, n/4 - 2, n/2 - 2, n - 3}
 	far := h < 21 || posOn && h <= 24 // positional trees: nothing is hashed, a height-24 tree is walked to its end
-	if !far { // the far half of a very tall tree costs minutes of traversal: stop after the first quarter
+	if !far {                         // the far half of a very tall tree costs minutes of traversal: stop after the first quarter
 		stops = []int{0, 253, 1<<16 - 3, 1<<16 + 250, n/4 - 2}
 		if n/4 > 1<<24 { // heights 28, 30: the jump is bounded by 2^24 rounds
 			stops[4] = 1<<24 - 2
@@ -533,7 +533,13 @@ func tallRebuild(h int, hf xmss.HashFunction, seed [48]uint8, r *rand.Rand, tr *
 	a := newKey(xmss.NewXMSSFromSeed(seed, uint8(h), hf, common.SHA256_2X), fam, o.tree, "seed+jump", tr)
 	a.setIndex(uint32(base + 4)) // exactly 2^16 in one jump
 	signN(a, 5)
-	b := newKey(xmss.NewXMSSFromSeed(seed, uint8(h), hf, common.SHA256_2X), fam, o.tree, "seed+2jumps", tr)
+	// rebuilt from what the original exports (extended seed = descriptor || seed), as a wallet restores it
+	var bx *xmss.XMSS
+	if res := call(func() { bx = xmss.NewXMSSFromExtendedSeed(o.x.GetExtendedSeed()) }); res != "ok" || bx == nil {
+		tr.Emit(event{Ev: "RebuildFailed", K: -1, Fam: fam, H: h, Hf: int(hf), Res: res, Route: "extendedSeed"})
+		bx = xmss.NewXMSSFromSeed(seed, uint8(h), hf, common.SHA256_2X)
+	}
+	b := newKey(bx, fam, o.tree, "extendedSeed+2jumps", tr)
 	b.setIndex(uint32(base + 1))
 	b.setIndex(uint32(base + 5)) // a jump that starts below 2^16 and ends above
 	signN(b, 4)
@@ -542,9 +548,14 @@ func tallRebuild(h int, hf xmss.HashFunction, seed [48]uint8, r *rand.Rand, tr *
 	signN(c, 3) // signs 65534, 65535, 65536
 	c.setIndex(uint32(base + 7))
 	signN(c, 2)
+	// a jump to an index whose low byte(s) are 0xff, then signing across the carry
+	d := newKey(xmss.NewXMSSFromSeed(seed, uint8(h), hf, common.SHA256_2X), fam, o.tree, "seed+jump-to-ffff", tr)
+	d.setIndex(uint32(base + 3)) // 65535
+	signN(d, 3)
 	a.drop(false)
 	b.drop(false)
 	c.drop(false)
+	d.drop(false)
 	o.drop(true)
 	return sigs
 }
